@@ -11,7 +11,7 @@ def base_program(rng, wrong=False):
     L = []
     nparties = rng.choice([1, 1, 2])
     for i in range(nparties):
-        L.append(rng.choice([f'p{i} = Party(name="P{i}")', f'p{i} = Party("P{i}")']))
+        L.append(rng.choice([f'p{i} = Party(name="P{i}")', f'p{i} = Party("P{i}")', f'p{i} = Party(name="Zoë{i}")', f'p{i} = Party("漢{i}")']))
     ints, bools, lists = [], [], []
     cls_of, helpers = {}, []
     RANK = {"Integer": 0, "PublicInteger": 1, "SecretInteger": 2}
@@ -32,33 +32,33 @@ def base_program(rng, wrong=False):
         k = rng.random()
         n += 1
         a, b = rng.choice(ints), rng.choice(ints)
-        if k < 0.3:
+        if k < 0.22:
             L.append(f"v{n} = {a} {rng.choice(['+', '-', '*'])} {b}")
             ints.append(f"v{n}")
-        elif k < 0.45:
+        elif k < 0.34:
             L.append(f"c{n} = {a} {rng.choice(['<', '<=', '>', '>=', '==', '!='])} {b}")
             bools.append(f"c{n}")
-        elif k < 0.6 and bools:
+        elif k < 0.46 and bools:
             L.append(f"v{n} = {rng.choice(bools)}.if_else({a}, {b})")
             ints.append(f"v{n}")
-        elif k < 0.7:
+        elif k < 0.55:
             L.append(f"l{n} = [{', '.join(rng.choice(ints) for _ in range(rng.randint(0, 3)))}]")
             lists.append(f"l{n}")
-        elif k < 0.78:
+        elif k < 0.62:
             L.append(f"l{n}: list[SecretInteger] = []")
             L.append(f"for i in range({rng.randint(0, 3)}):")
             L.append(f"    l{n}.append({a} * {b})")
             lists.append(f"l{n}")
-        elif k < 0.86:
+        elif k < 0.69:
             L.append(f"l{n} = [{a} + {b} for i in range({rng.randint(0, 3)})]")
             lists.append(f"l{n}")
-        elif k < 0.9 and lists:
+        elif k < 0.75 and lists:
             L.append(f"v{n} = sum({rng.choice(lists)})")
             ints.append(f"v{n}")
-        elif k < 0.91:
+        elif k < 0.78:
             L.append(f"v{n} = {rng.choice(['-', '+'])}{a}")
             ints.append(f"v{n}")
-        elif k < 0.935 and a in cls_of and b in cls_of:
+        elif k < 0.84 and a in cls_of and b in cls_of:
             # a helper function with annotated parameters; its declared return type is the class of the returned
             # value (`wrong`: a less / more secret class, which the checker must report)
             ca, cb = cls_of[a], cls_of[b]
@@ -69,14 +69,23 @@ def base_program(rng, wrong=False):
             L.append(f"v{n} = h{n}({a}, {b})")
             ints.append(f"v{n}")
             cls_of[f"v{n}"] = ret
-        elif k < 0.95 and a in cls_of and b in cls_of:
+        elif k < 0.89 and a in cls_of and b in cls_of:
             # assignment through a subscript: the item must have the list's item type (`wrong`: another class)
             item = b if (cls_of[a] == cls_of[b] or wrong) else a
             L.append(f"s{n} = [{a}, {a}]")
             L.append(f"s{n}[{rng.randint(0, 1)}] = {item}")
             L.append(f"v{n} = s{n}[0] + s{n}[1]")
             ints.append(f"v{n}")
-        elif k < 0.96:
+        elif k < 0.93 and len(ints) >= 2:
+            # a comprehension whose loop variable has the name of an outer variable (local to the comprehension in
+            # Python 3: the outer variable keeps its value and type)
+            shadow = rng.choice(ints)
+            others = [x for x in ints if x != shadow] or ints
+            L.append(f"l{n} = [{rng.choice(others)} * {rng.choice(others)} for {shadow} in range({rng.randint(1, 3)})]")
+            lists.append(f"l{n}")
+            L.append(f"v{n} = {shadow} + {shadow}")
+            ints.append(f"v{n}")
+        elif k < 0.97:
             # nested lists whose rows differ in secrecy / constness, then reads through them
             rows = [[rng.choice(ints) for _ in range(rng.randint(1, 2))] for _ in range(rng.randint(2, 3))]
             L.append(f"m{n} = [" + ", ".join("[" + ", ".join(r) + "]" for r in rows) + "]")
@@ -144,8 +153,14 @@ EXPR_ZOO = [
     "f(*a, **k)", "f(a=1)", "f(a)(b)", "Party(name='p' + str(1))", "str(1) + 'a'", "sum([x0, x0])", "sum([])", "sum(l)", "max(x0, x0)", "len(l)", "int('1')",
     "Integer(5)", "Integer(x0)", "Integer(-1)", "SecretInteger(Input(name='q', party=p0))", "SecretInteger(Input('q', p0, 'doc'))", "range(3)", "range(x0)",
     "x0 if True else x0", "x0.if_else(x0, x0)", "(x0 < x0).if_else(x0, x0)", "(x0 < x0).if_else(x0, k)", "(1 < 2).if_else(x0, x0)", "(x0 == x0).if_else(x0, 1)",
+    "(x0 < x0).if_else(x0, undefined_name)", "(x0 < x0).if_else(undefined_name, x0)", "(Integer(1) < Integer(2)).if_else(x0, undefined_name)",
+    "(Integer(1) < Integer(2)).if_else([x0], x0)", "(Integer(1) < Integer(2)).if_else(x0, helper)", "(x0 < x0).if_else([x0], [x0])",
+    "(Integer(1) < Integer(2)).if_else(x0 + 'a', x0)", "(x0 < x0).if_else(x0, nada_main)", "(x0 < x0).if_else(p0, x0)",
+    "(Integer(0) == Integer(0)).if_else(undefined_a, undefined_b)", "x0.if_else(undefined_name, [1])",
+    "'a\x0cb'", "'a\x1cb'", "'a\u2028b'", "'\x85'", "'é漢'", "Party(name='Zoë')", "'\x0b'",
 ]
-COMMENTS = ["", "", "  # a comment", "  # <b>html & entities</b>", "\t# tab"]
+COMMENTS = ["", "", "  # a comment", "  # <b>html & entities</b>", "\t# tab", "  # é漢 naïve", "  # page\x0cbreak", "  # sep\u2028arator",
+            "  # \x1c\x1d\x1e\x85"]
 
 
 def indent(lines, n=1):
